@@ -1,6 +1,51 @@
 """Property -> rules wiring and MANIFEST metadata."""
+import os
 from . import facts, sem
 from .rules import f5_trace, f6_kinds, f7_roots, f4_gc, f4_chan, f4_sched, f4_vm, f1_isa, f9_casts, f10_parity, f2_emit, f2_visit, f3_flow, f4_exc, f4_iter, f4_repl, f9_empty, f4_cache, f4_obj, f11_peephole, f8_hazards, f1c_ops, f9_cursor
+
+
+def _guard_rules():
+    """A rule that hits a construct it does not model must fail closed with a named finding, not abort the
+    whole check with a traceback (and must not stop the other rules of the property from running)."""
+    import functools, inspect, traceback
+    mods = [f5_trace, f6_kinds, f7_roots, f4_gc, f4_chan, f4_sched, f4_vm, f1_isa, f9_casts, f10_parity, f2_emit, f2_visit, f3_flow, f4_exc, f4_iter, f4_repl, f9_empty, f4_cache, f4_obj, f11_peephole, f8_hazards, f1c_ops, f9_cursor]
+    for m in mods:
+        for name, obj in list(vars(m).items()):
+            if not inspect.isfunction(obj) or obj.__module__ != m.__name__ or name.startswith("_"):
+                continue
+            try:
+                params = list(inspect.signature(obj).parameters)
+            except (TypeError, ValueError):
+                continue
+            if not params or params[0] != "rec":
+                continue
+
+            def make(fn, mname, fname):
+                @functools.wraps(fn)
+                def wrapped(rec, *a, **k):
+                    depth = getattr(rec, "_guard_depth", 0)
+                    rec._guard_depth = depth + 1
+                    try:
+                        return fn(rec, *a, **k)
+                    except facts.ExtractError:
+                        raise
+                    except Exception as e:
+                        if depth > 0:
+                            raise
+                        tb = traceback.extract_tb(e.__traceback__)
+                        where = "%s:%d" % (os.path.basename(tb[-1].filename), tb[-1].lineno) if tb else "?"
+                        rid = "ENGINE"
+                        rec.rule(rid, "every rule runs to completion on the current tree (a rule that cannot analyse a construct fails closed)")
+                        rec.inst(rid, "%s.%s" % (mname, fname), ok=False)
+                        rec.finding(rid, "ENGINE/%s.%s/%s" % (mname, fname, type(e).__name__), "rule %s.%s aborted with %s: %s (at %s): the code it analyses has a shape the rule does not model; its clauses are NOT established on this tree" % (mname, fname, type(e).__name__, str(e)[:160], where))
+                        return None
+                    finally:
+                        rec._guard_depth = depth
+                return wrapped
+            setattr(m, name, make(obj, m.__name__.split(".")[-1], name))
+
+
+_guard_rules()
 
 
 def D(rec):
